@@ -147,8 +147,30 @@ def check(chk):
               'guard %s gives None->%s, 0->%s, n->%s: ConsistencyLevel.ANY is 0, so a decision (RETRY, ANY) would be retried at the original level'
               % (src(p.test), res[NONE], res[FALSY], res[TRUTHY]))
     s = src(rt)
-    chk.judge('self.session.submit(self._retry_task, reuse_connection, host)' in s and s.index('self.message.consistency_level') < s.index('self.session.submit('),
-              'C16.cl', rt, 'consistency written before the retry is submitted', 'the retry is submitted before the consistency level is set')
+    subs_rt = [n for n in g.stmt_nodes() if n.kind == 'stmt' and any(isinstance(c_, ast.Call) and src(c_.func) == 'self.session.submit' and c_.args and src(c_.args[0]) == 'self._retry_task'
+                                                                     for c_ in ast.walk(n.ast))]
+    def _reaches(a_, b_):
+        seen_, work_ = set(), [x_ for x_, _l in a_.succ]
+        while work_:
+            n_ = work_.pop()
+            if n_.id in seen_:
+                continue
+            seen_.add(n_.id)
+            if n_ is b_:
+                return True
+            work_.extend(x_ for x_, _l in n_.succ)
+        return False
+    chk.judge(len(subs_rt) == 1 and _reaches(wn, subs_rt[0]) and not _reaches(subs_rt[0], wn), 'C16.cl', rt,
+              'consistency written before the retry is submitted', 'the retry is submitted before the consistency level is set')
+    # the retry goes to the host whose response was judged (the parameter), not to whatever attempt is the latest
+    params_rt = [a_.arg for a_ in rt.args.args]
+    okh_ = False
+    if len(subs_rt) == 1:
+        c_ = [c_ for c_ in ast.walk(subs_rt[0].ast) if isinstance(c_, ast.Call) and src(c_.func) == 'self.session.submit'][0]
+        okh_ = [src(a_) for a_ in c_.args[1:]] == [params_rt[1], params_rt[3]] if len(params_rt) >= 4 else False
+    chk.judge(okh_, 'C16.host', rt, '_retry hands (reuse_connection, host) - its own parameters - to _retry_task',
+              'the retry task is given %s: with speculative executions self._current_host is the latest attempt, not the host whose answer the policy judged - a RETRY meant for host A goes to host B'
+              % ([src(a_) for c2 in ast.walk(subs_rt[0].ast) if isinstance(c2, ast.Call) and src(c2.func) == 'self.session.submit' for a_ in c2.args[1:]] if subs_rt else 'nothing'))
 
     # ---- host choice
     task = cl.func('ResponseFuture._retry_task')
